@@ -51,9 +51,25 @@ struct ValueStorage {
 	bool operator < (const ValueStorage & o) const { return v < o.v; }
 };
 
+template <std::size_t S> struct Sized { char bytes[S]; };
+template <std::size_t S> struct SizedNT { char bytes[S]; SizedNT() {} SizedNT(const SizedNT & o) { bytes[0] = o.bytes[0]; } ~SizedNT() {} };
+
+template <std::size_t N>
+void exerciseAnyDataSizes()
+{
+	using AD = eventpp::AnyData<N>;
+	AD s1(Sized<1>{}); AD s8(Sized<8>{}); AD s15(Sized<15>{}); AD s16(Sized<16>{}); AD s17(Sized<17>{}); AD s23(Sized<23>{});
+	AD s24(Sized<24>{}); AD s25(Sized<25>{}); AD s63(Sized<63>{}); AD s64(Sized<64>{}); AD s65(Sized<65>{}); AD s128(Sized<128>{});
+	AD n16((SizedNT<16>())); AD n17((SizedNT<17>())); AD n64((SizedNT<64>())); AD n65((SizedNT<65>()));
+	AD m1(std::move(s16)); AD m2(std::move(s17)); AD m3(std::move(n64)); AD m4(std::move(n65));
+	(void)s1; (void)s8; (void)s15; (void)s23; (void)s24; (void)s25; (void)s63; (void)s64; (void)s65; (void)s128; (void)n16; (void)n17;
+	(void)m1.template isType<Sized<16> >(); (void)m2.template get<Sized<17> >(); (void)m3; (void)m4;
+}
+
 template <std::size_t N>
 void exerciseAnyData()
 {
+	exerciseAnyDataSizes<N>();
 	using AD = eventpp::AnyData<N>;
 	AD a(1); AD b(std::string("s")); AD c(Big{}); AD d(Mid24{}); AD e((MoveOnly()));
 	const std::string cs("x"); AD f(cs); int i = 0; AD g(i);
